@@ -79,7 +79,7 @@ def register(reg):
         a = "all(isnan(%s) or %s <= thresholds_max[j] for j in range(0, %s))" % (v % ("j", i), v % ("j", i), upto)
         o = "any(not isnan(%s) and %s <= thresholds_max[j] for j in range(0, %s))" % (v % ("j", i), v % ("j", i), upto)
         return "((%s) if mode_comparaison == 1 else (%s))" % (a, o)
-    OTHER_OBS = ("all(implies(all(obs(track, q) != o for q in range(0, npts(track))), same(o.features, old(o.features))) "
+    OTHER_OBS = ("all(implies(all(obs(track, q) != o for q in range(0, npts(track))), untouched(o, 'Obs.features')) "
                  "for o in refs(Obs))")
     for variant, ka, kt in ((None, "list[str]", "list[float]"), ("scalar", "str", "float")):
         pre_afs = "afs_input[j]" if variant is None else "afs_input"
